@@ -139,13 +139,34 @@ func (c *c11World) setupLancero(rows, cols int) {
 	ls.heartbeats = c.sc.heartbeats
 	c.sc.lancero = ls
 	c.ls = ls
-	var ok bool
-	if err := c.sc.ConfigureLanceroSource(&LanceroSourceConfig{FiberMask: 0xffff, CardDelay: []int{1}, ActiveCards: []int{0}, FirstRow: 1}, &ok); err != nil {
-		simrt.Fail("harness.configure", "harness:configure", "ConfigureLanceroSource: %v", err)
-	}
+	// (the configuration request itself is sent by configureMain, with its options drawn)
 	c.name, c.main = "LANCEROSOURCE", &ls.AnySource
 	c.blkLen = int(50 * time.Millisecond / framePeriod) // frames per 50 ms reader tick
 	c.period = framePeriod
+}
+
+// drawLanceroConfig draws a legal configuration of the one-card Lancero source: every option over the
+// range its documentation allows. ShouldAutoRestart is a wish the server notes when a run ends ("not
+// implemented yet"); the channel-number options are checked by the next Start against the card's geometry
+// (a separation is 0 = number sequentially, or at least the number of rows / of channels per card).
+func (c *c11World) drawLanceroConfig() *LanceroSourceConfig {
+	cfg := &LanceroSourceConfig{ActiveCards: []int{0}}
+	cfg.ShouldAutoRestart = simrt.Draw(2) == 1
+	cfg.FiberMask = []uint32{0xffff, 0x0001, 0x00ff, 0xffffffff}[simrt.Draw(4)]
+	cfg.CardDelay = [][]int{{1}, nil, {0}, {5, 7}}[simrt.Draw(4)]
+	cfg.FirstRow = []int{1, 1, 0, 33, 1000}[simrt.Draw(5)]
+	cfg.ChanSepColumns = []int{0, 0, c.lanRows, 8, 32}[simrt.Draw(5)]
+	colsep := c.lanRows
+	if cfg.ChanSepColumns > 0 {
+		colsep = cfg.ChanSepColumns
+	}
+	cfg.ChanSepCards = []int{0, 0, colsep * c.lanCols, 1000}[simrt.Draw(4)]
+	return cfg
+}
+
+func c11LanceroDesc(cfg *LanceroSourceConfig) string {
+	return fmt.Sprintf("ConfigureLanceroSource{FiberMask:%#x CardDelay:%v ActiveCards:%v ShouldAutoRestart:%v FirstRow:%d ChanSepCards:%d ChanSepColumns:%d}",
+		cfg.FiberMask, cfg.CardDelay, cfg.ActiveCards, cfg.ShouldAutoRestart, cfg.FirstRow, cfg.ChanSepCards, cfg.ChanSepColumns)
 }
 
 // reqMixLancero: mix requests against a Lancero source.
